@@ -109,6 +109,13 @@ pub fn gen_c12(seed: u64, tier: Tier) -> CaseSet {
         { let mut m = base(&orig); m.sig = other_c.sig.clone(); muts.push(("signature-by-other-key", m, false, vec![], 1)); }
         { let mut m = base(&orig); let i = rng.below(64) as usize; m.sig[i] ^= 1 << rng.below(8); muts.push(("signature-byte-flipped", m, false, vec![], 1)); }
         muts.push(("conflicting-slice-valid", base(&other_b), true, commit_b.clone(), 0));
+        // the SAME payload (same slice root) validly signed a second time by the leader under another header (last flag
+        // flipped / another slice index): a valid shred on its own, equivocation against the original's cached commitment
+        for (nm, fl, ix) in [("same-root-resigned-with-other-last-flag", !last_a, idx_a), ("same-root-resigned-under-other-slice-index", last_a, (idx_a + 1 + rng.below(3)) % 1024)] {
+            let commit2 = commitment_bytes(slot, ix, fl, &root_a);
+            let sig = wincode::serialize(&leader.sign_bytes(&commit2)).unwrap();
+            if sig.len() == 64 { let mut m = base(&orig); m.last = fl as u8; m.slice = ix; m.sig = sig; muts.push((nm, m, true, commit2, 0)); }
+        }
         // a slice the (Byzantine) leader signed over a tree of only 32 leaves: proofs have 5 elements; leaf `pos` offered at
         // its own position (valid) and at the alias position pos + 32 beyond the width of that tree (must be rejected,
         // also when the short tree's commitment is already cached)
@@ -139,7 +146,7 @@ pub fn gen_c12(seed: u64, tier: Tier) -> CaseSet {
             {
                 let known: Option<alpenglow::crypto::merkle::SliceRoot> = if name.starts_with("short-tree") { short_root.clone() } else { Some(sa[0].slice_root().clone()) };
                 if let Some(root) = known {
-                    let expect_ok = matches!(name, "valid" | "short-tree-in-width" | "last-flag-flipped" | "replayed-under-other-slot" | "replayed-under-other-slice" | "data-coding-tag-flipped" | "signature-of-conflicting-slice" | "signature-by-other-key" | "signature-byte-flipped");
+                    let expect_ok = matches!(name, "valid" | "same-root-resigned-with-other-last-flag" | "same-root-resigned-under-other-slice-index" | "short-tree-in-width" | "last-flag-flipped" | "replayed-under-other-slot" | "replayed-under-other-slice" | "data-coding-tag-flipped" | "signature-of-conflicting-slice" | "signature-by-other-key" | "signature-byte-flipped");
                     let expect_bad = matches!(name, "short-tree-alias-index-beyond-width" | "payload-byte-flipped" | "payload-truncated" | "payload-extended" | "proof-element-corrupted" | "proof-shortened" | "proof-lengthened");
                     let got = catch_unwind(AssertUnwindSafe(|| shred.verify_path_only(&root)));
                     path_only_checked += 1;
@@ -163,8 +170,12 @@ pub fn gen_c12(seed: u64, tier: Tier) -> CaseSet {
                 let w = format!("(mkW {} {} {} {} {} {} {} {} {})", cf::n(m.slot), cf::n(m.slice), cf::b(m.last != 0), cf::n(m.index),
                     it.hex(&m.data), cf::list(&m.path.iter().map(|h| it.hex(h)).collect::<Vec<_>>()), cf::b(m.tag == 0), cf::b(by_leader), it.hex(&sig_msg));
                 let c = match &cached_bytes { None => "None".to_string(), Some(b) => format!("(Some {})", it.hex(b)) };
-                // expectation: 0 accept, 1 reject (only meaningful without a cache hit)
-                let txt = format!("(C12 {} {} {} {} {})", cf::n(cid), w, c, cf::n(if cache_mode == 0 { expect as u64 } else { 2 }), v);
+                // a validly signed shred whose commitment differs from the cached, validly signed one for the same slot:
+                // two signed commitments of the leader - must be reported as equivocation
+                let equivocation_expected = (cache_mode == 1 && matches!(name, "conflicting-slice-valid" | "same-root-resigned-with-other-last-flag" | "same-root-resigned-under-other-slice-index"))
+                    || (cache_mode == 2 && matches!(name, "valid" | "same-root-resigned-with-other-last-flag" | "same-root-resigned-under-other-slice-index"));
+                // expectation: 0 accept, 1 reject (without a cache hit), 3 equivocation (against a cached commitment)
+                let txt = format!("(C12 {} {} {} {} {})", cf::n(cid), w, c, cf::n(if cache_mode == 0 { expect as u64 } else if equivocation_expected { 3 } else { 2 }), v);
                 sigs.push((cid, 0, format!("shred-auth:{}:cache{}:{}", name, cache_mode, v)));
                 stats.evaluations += 1;
                 if name != "valid" && seen.insert(txt.clone()) { stats.distinct_nontrivial += 1; }
@@ -175,7 +186,7 @@ pub fn gen_c12(seed: u64, tier: Tier) -> CaseSet {
             }
         }
     }
-    stats.rule = "real shreds of small slices (RegularShredder, fresh leader key) and the mutation catalogue applied to the wire bytes: other slot / slice index / last flag / shred index, payload byte flipped / truncated / extended, proof element corrupted, proof shortened / lengthened, data-coding tag flipped, signature of a conflicting validly signed slice, signature by another key, signature byte flipped, and the conflicting slice itself; each with no cached commitment, the original slice's and the conflicting slice's cached commitment; plus a slice signed over a tree of only 32 leaves whose leaf is offered at its own and at the alias position beyond the tree's width, with no cache and with that slice's own cached commitment; non-trivial = a mutated shred; distinct by content".into();
+    stats.rule = "real shreds of small slices (RegularShredder, fresh leader key) and the mutation catalogue applied to the wire bytes: other slot / slice index / last flag / shred index, payload byte flipped / truncated / extended, proof element corrupted, proof shortened / lengthened, data-coding tag flipped, signature of a conflicting validly signed slice, signature by another key, signature byte flipped, the conflicting slice itself, and the same slice root validly signed again under another last flag / slice index; each with no cached commitment, the original slice's and the conflicting slice's cached commitment; plus a slice signed over a tree of only 32 leaves whose leaf is offered at its own and at the alias position beyond the tree's width, with no cache and with that slice's own cached commitment; non-trivial = a mutated shred; distinct by content".into();
     let mut v: Vec<_> = mutc.into_iter().collect(); v.sort();
     stats.distribution.push(("verify_path_only_compared".into(), path_only_checked.to_string()));
     stats.distribution.push(("mutations".into(), v.iter().map(|(k, c)| format!("{}={}", k, c)).collect::<Vec<_>>().join(", ")));
